@@ -117,9 +117,15 @@ class ResponseGen:
         return out
 
     # -- data --------------------------------------------------------------
-    def operation(self, opdef):
+    # A normalized cache assumes that one entity (same type and id; for objects without id: same parent, field and index)
+    # has ONE value per (field, argument values).  Ids are deliberately shared between positions, so everything generated
+    # for an entity is memoised and reproduced when the entity shows up again (record merging without contradictions).
+    def operation(self, opdef, variables=None):
+        self.vars = variables or {}
+        self.entities = {}
+        self.open = set()
         root = self.s.root(opdef["operation"])
-        return self.obj(root, [opdef["selectionSet"]], top=True)
+        return self.obj(root, [opdef["selectionSet"]], ("root", root), top=True)
 
     def applies(self, concrete, cond):
         if cond is None or cond == concrete:
@@ -143,16 +149,54 @@ class ResponseGen:
     def new_id(self, concrete):
         pool = self.ids[concrete]
         if pool and self.r.random() < self.share:
-            self.stats["ids_shared"] += 1
-            return self.r.choice(pool)
+            # not an entity that is being generated right now (it would contain itself with a contradicting value)
+            free = [x for x in pool if ("id", concrete, x) not in self.open]
+            if free:
+                self.stats["ids_shared"] += 1
+                return self.r.choice(free)
         v = "%s-%d" % (concrete.lower(), len(pool) + 1)
         pool.append(v)
         return v
 
-    def obj(self, concrete, selsets, top=False, forced_id=None):
+    def arg_value(self, v):
+        k = v["kind"]
+        if k == "Variable":
+            return self.vars.get(v["name"])
+        if k == "ObjectValue":
+            return {f["name"]: self.arg_value(f["value"]) for f in v["fields"]}
+        if k == "ListValue":
+            return [self.arg_value(x) for x in v["values"]]
+        if k == "NullValue":
+            return None
+        return v.get("value")
+
+    def store_key(self, f):
+        return f["name"] + json.dumps([[a["name"], self.arg_value(a["value"])] for a in f["arguments"]], sort_keys=True)
+
+    def has_id(self, concrete, fields):
+        for key, fs in fields.items():
+            if fs[0]["name"] == "id":
+                fd = self.s.field(concrete, "id")
+                return fd is not None and named_type(fd["type"]) == "ID"
+        return False
+
+    def obj(self, concrete, selsets, ek, top=False):
         fields = self.collect(concrete, selsets)
         self.stats["objects"] += 1
+        memo = self.entities.setdefault(ek, {})
+        if memo:
+            self.stats["entity_occurrences_merged"] += 1
         out = {}
+        was_open = ek in self.open
+        self.open.add(ek)
+        try:
+            self._fill(concrete, fields, ek, memo, out, top)
+        finally:
+            if not was_open:
+                self.open.discard(ek)
+        return out
+
+    def _fill(self, concrete, fields, ek, memo, out, top):
         for key, fs in fields.items():
             name = fs[0]["name"]
             if name == "__typename":
@@ -162,40 +206,66 @@ class ResponseGen:
             if fd is None:
                 self.stats["fields_unknown_to_schema(see C09)"] += 1
                 continue
-            if name == "id" and named_type(fd["type"]) == "ID":
-                out[key] = forced_id if forced_id is not None else self.new_id(concrete)
+            if name == "id" and named_type(fd["type"]) == "ID" and ek[0] == "id":
+                out[key] = ek[2]
                 continue
-            if top and name == "node" and self.node_type is not None:
+            sk = self.store_key(fs[0])
+            subs = [f["selectionSet"] for f in fs if f["selectionSet"]]
+            if top and name == "node" and self.node_type is not None and sk not in memo:
                 poss = sorted(self.s.possible_types(self.node_type))
                 if poss:
                     ct = poss[self.index % len(poss)]
                     self.ids[ct].append(self.node_id)
                     self.node_link = {"__link": self.node_id, "__typename": ct}
-                    out[key] = self.obj(ct, [f["selectionSet"] for f in fs if f["selectionSet"]], forced_id=self.node_id)
+                    memo[sk] = {"t": ct, "id": self.node_id}
                     self.stats["node_roots"] += 1
-                    continue
-            out[key] = self.complete(fd["type"], fs)
+            if sk in memo:
+                self.stats["entity_fields_reproduced"] += 1
+                out[key] = self.reproduce(memo[sk], subs, (ek, sk))
+            else:
+                val, skel = self.complete(fd["type"], subs, (ek, sk))
+                memo[sk] = skel
+                out[key] = val
         return out
 
-    def complete(self, t, fs, nonnull=False):
+    def child(self, concrete, subs, pk, forced_id=None):
+        """Object of concrete type at parent position pk -> (value, skeleton)."""
+        fields = self.collect(concrete, subs)
+        if self.has_id(concrete, fields):
+            cid = forced_id if forced_id is not None else self.new_id(concrete)
+            return self.obj(concrete, subs, ("id", concrete, cid)), {"t": concrete, "id": cid}
+        return self.obj(concrete, subs, ("path", concrete) + tuple(pk)), {"t": concrete, "id": None}
+
+    def reproduce(self, skel, subs, pk):
+        if skel is None:
+            return None
+        if isinstance(skel, list):
+            return [self.reproduce(x, subs, pk + (i,)) for i, x in enumerate(skel)]
+        if isinstance(skel, dict) and "t" in skel:
+            return self.child(skel["t"], subs, pk, forced_id=skel["id"])[0]
+        return skel["v"]
+
+    def complete(self, t, subs, pk, nonnull=False):
         r = self.r
         if t["kind"] == "NonNullType":
-            return self.complete(t["type"], fs, True)
+            return self.complete(t["type"], subs, pk, True)
         if not nonnull and r.random() < self.null_w:
             self.stats["nulls"] += 1
-            return None
+            return None, None
         if t["kind"] == "ListType":
             n = r.randint(self.min_list, self.max_list)
             self.stats["lists"] += 1
             self.stats["list_len_%d" % n] += 1
-            return [self.complete(t["type"], fs) for _ in range(n)]
+            pairs = [self.complete(t["type"], subs, pk + (i,)) for i in range(n)]
+            return [p[0] for p in pairs], [p[1] for p in pairs]
         n = t["name"]
         if is_leaf(self.s, n):
-            return self.leaf(n)
+            v = self.leaf(n)
+            return v, {"v": v}
         poss = sorted(self.s.possible_types(n))
         if not poss:
             self.stats["abstract_without_possible_types"] += 1
-            return None
+            return None, None
         if len(poss) > 1 or self.s.types[n]["kind"] != "OBJECT":
             concrete = poss[(self.index + self.abs_counter) % len(poss)]
             self.abs_counter += 1
@@ -203,8 +273,7 @@ class ResponseGen:
             self.stats["typename:" + concrete] += 1
         else:
             concrete = poss[0]
-        subs = [f["selectionSet"] for f in fs if f["selectionSet"]]
-        return self.obj(concrete, subs)
+        return self.child(concrete, subs, pk)
 
     def leaf(self, n):
         r = self.r
@@ -323,7 +392,7 @@ def run_runtime(c, invoke=False, want_keys=True, null_w=0.2, min_list=0, max_lis
             parent_type = key.split("/")[0]
             if parent_type != schema.root(opdef["operation"]) and "id" in variables and parent_type in schema.types:
                 g.node_type, g.node_id = parent_type, str(variables["id"])
-            resp = g.operation(opdef)
+            resp = g.operation(opdef, variables)
             gen_stats.update(g.stats)
             lst.append({"tag": i, "variables": variables, "response": resp, "root": g.node_link})
         cases[key] = lst
